@@ -3,6 +3,8 @@ package props
 import (
 	"fmt"
 	"strings"
+	"sync"
+	"sync/atomic"
 
 	"verifharness/chain"
 	"verifharness/gen"
@@ -37,22 +39,50 @@ func init() {
 					cells = append(cells, "pair/"+pos+"/"+rel)
 				}
 			}
-			return append(cells, "purity/chain-verdicts/history", "purity/chain-verdicts/concurrent", "purity/chain-verdicts/concurrent-focused", "chain-purity/ExecutionAllowed/same-proofs-command-parent/model=deny", "chain-purity/ExecutionAllowed/same-proofs-command-sibling/model=deny", "chain-purity/ExecutionAllowed/same-proofs-command-child/model=allow", "allowed", "denied", "wire", "hook", "long-chain", "scale", "shared-lower-links", "special-segments")
+			return append(cells, "purity/chain-verdicts/history", "purity/chain-verdicts/concurrent", "purity/chain-verdicts/concurrent-focused", "chain-purity/ExecutionAllowed/same-proofs-command-parent/model=deny", "chain-purity/ExecutionAllowed/same-proofs-command-sibling/model=deny", "chain-purity/ExecutionAllowed/same-proofs-command-child/model=allow", "allowed", "denied", "wire", "hook", "long-chain", "scale", "shared-lower-links", "special-segments", "principals/one-self-issued-link", "principals/one-principal-throughout")
 		},
 	})
 }
 
+// c02Pattern counts the scenarios built; the principal pattern rotates with it.
+var c02Pattern atomic.Int64
+
 func c02Scenario(cmds []string) *chain.Scenario {
+	return c02ScenarioP(cmds, int(c02Pattern.Add(1)))
+}
+
+// c02PatOf remembers the pattern a built chain was drawn with (a chain that shares its lower
+// links with an earlier one must use the same principals).
+var c02PatOf sync.Map
+
+func c02ScenarioP(cmds []string, ctr int) *chain.Scenario {
 	// cmds[0] = invoked command, cmds[1..n] = links leaf to root
 	n := len(cmds) - 1
-	s := &chain.Scenario{Subject: gen.Ed(0), Invoker: gen.Ed(n % 10), Cmd: cmds[0], Args: ref.Map()}
+	// who the principals along the chain are has nothing to do with which commands cover which:
+	// half of the chains have all-distinct principals, a quarter hold one SELF-ISSUED link
+	// (issuer = audience) at a rotating position - root, middle or leaf -, and a quarter are
+	// issued by one principal throughout
+	at := func(i int) *gen.Principal { return gen.Ed(i % 10) } // position 0 = subject .. n = invoker
+	switch ctr % 4 {
+	case 2:
+		j := (ctr / 4) % n // the link from position j to j+1 is self-issued
+		at = func(i int) *gen.Principal {
+			if i > j {
+				i--
+			}
+			return gen.Ed(i % 10)
+		}
+	case 3:
+		at = func(int) *gen.Principal { return gen.Ed(0) }
+	}
+	s := &chain.Scenario{Subject: at(0), Invoker: at(n), Cmd: cmds[0], Args: ref.Map()}
 	if strings.HasPrefix(cmds[0], "/ucan") {
 		// commands of the specification's own namespace come with the arguments the specification
 		// gives them (a link to the token they are about)
 		s.Args = ref.Map(ref.E("ucan", ref.Link(gen.LinkPool()[0])), ref.E("ucans", ref.List(ref.Link(gen.LinkPool()[0]))))
 	}
 	for k := 0; k < n; k++ {
-		s.Links = append(s.Links, chain.Link{Iss: gen.Ed((n - 1 - k) % 10), Aud: gen.Ed((n - k) % 10), Sub: gen.Ed(0), Cmd: cmds[k+1]})
+		s.Links = append(s.Links, chain.Link{Iss: at(n - 1 - k), Aud: at(n - k), Sub: at(0), Cmd: cmds[k+1]})
 	}
 	return s
 }
@@ -64,13 +94,26 @@ func c02RunH(w *mon.W, cmds []string, wire int, hook bool) { c02RunR(w, cmds, wi
 // c02RunR: with reuse != nil the first reuseN links are the very delegations (objects, CIDs) of
 // an earlier chain.
 func c02RunR(w *mon.W, cmds []string, wire int, hook bool, reuse *chain.Built, reuseN int) *chain.Built {
-	s := c02Scenario(cmds)
+	remember := reuse == nil && reuseN == -1 // the caller is going to build a second chain on this one
+	if remember {
+		reuseN = 0
+	}
+	ctr := int(c02Pattern.Add(1))
+	if reuse != nil {
+		if v, ok := c02PatOf.Load(reuse); ok {
+			ctr = v.(int)
+		}
+	}
+	s := c02ScenarioP(cmds, ctr)
 	s.Reuse, s.ReuseN = reuse, reuseN
 	s.Wire = wire
 	b, err := s.Build(w.Rng)
 	if err != nil {
 		w.Inconclusive("C02 scenario could not be realised: " + err.Error())
 		return nil
+	}
+	if remember {
+		c02PatOf.Store(b, ctr)
 	}
 	want, why := s.CommandsOK()
 	if ok, pwhy := s.PrincipalsOK(); !ok {
@@ -81,6 +124,20 @@ func c02RunR(w *mon.W, cmds []string, wire int, hook bool, reuse *chain.Built, r
 	w.Eval(1)
 	if hook {
 		w.Cover("hook")
+	}
+	selfIssued := 0
+	for _, l := range s.Links {
+		if l.Iss == l.Aud {
+			selfIssued++
+		}
+	}
+	switch {
+	case selfIssued == 0:
+		w.Cover("principals/all-distinct-neighbours")
+	case selfIssued == len(s.Links):
+		w.Cover("principals/one-principal-throughout")
+	default:
+		w.Cover("principals/one-self-issued-link")
 	}
 	if len(cmds) > 9 {
 		w.Cover("long-chain")
@@ -288,7 +345,7 @@ func runC02(w *mon.W) {
 				cur = ref.CmdFromSegments(sg[:len(sg)-1])
 			}
 		}
-		b1 := c02RunR(w, first, 0, w.Rng.IntN(3) == 0, nil, 0)
+		b1 := c02RunR(w, first, 0, w.Rng.IntN(3) == 0, nil, -1)
 		if b1 == nil {
 			continue
 		}
@@ -305,6 +362,7 @@ func runC02(w *mon.W) {
 			}
 		}
 		c02RunR(w, second, 0, w.Rng.IntN(3) == 0, b1, keep)
+		c02PatOf.Delete(b1)
 		w.Cover("shared-lower-links")
 	}
 }
